@@ -38,11 +38,15 @@ type c12Plan struct {
 	// Reseed: before the ceremony the operator of the restarted machine enters the same mnemonic once more (set_seed a
 	// second time in the same session); the keys derived from a mnemonic do not depend on how often it was entered
 	Reseed bool `json:"reseed,omitempty"`
+	// RefeedDeals: the operator reads the deals operation a second time on the running machine (the first result got
+	// lost on its way to the node) and carries the second result; twin and restarted machine alike
+	RefeedDeals bool `json:"refeed_deals,omitempty"`
 }
 
 func c12Gen(rt *rapid.T) c12Plan {
 	nt := rapid.SampledFrom([][2]int{{2, 2}, {3, 2}, {3, 3}, {4, 3}}).Draw(rt, "nt")
 	p := c12Plan{N: nt[0], T: nt[1], P: rapid.IntRange(0, nt[0]-1).Draw(rt, "p"), Prior: rapid.Bool().Draw(rt, "prior"), Reseed: rapid.IntRange(0, 2).Draw(rt, "reseed") == 0}
+	p.RefeedDeals = rapid.IntRange(0, 2).Draw(rt, "refeedDeals") == 0
 	k := rapid.IntRange(1, 3).Draw(rt, "nrestarts")
 	seen := map[int]bool{}
 	for i := 0; i < k; i++ {
@@ -65,6 +69,11 @@ type c12Obs struct {
 	States    []string
 	Restarted []string
 	Err       error
+	// RespPublished: the responses message the machine handed out during the ceremony; RespReplayed: the one in the result
+	// file a final restart with replay wrote
+	RespPublished []byte
+	RespReplayed  []byte
+	RespFile      string
 }
 
 func c12Execute(p c12Plan, withRestarts bool, root string) (obs c12Obs) {
@@ -208,9 +217,17 @@ func c12Execute(p c12Plan, withRestarts bool, root string) (obs c12Obs) {
 				return fmt.Errorf("airgapped: %w", err)
 			}
 		}
+		if p.RefeedDeals && string(operation.Type) == "state_dkg_deals_await_confirmations" {
+			if again, aerr := m.Process(file); aerr == nil {
+				resFile = again
+			}
+		}
 		var res types.Operation
 		if err := json.Unmarshal(resFile, &res); err != nil {
 			return fmt.Errorf("result file: %w", err)
+		}
+		if res.Event == "event_dkg_response_confirm_received" && len(res.ResultMsgs) == 1 {
+			obs.RespPublished, obs.RespFile = res.ResultMsgs[0].Data, resultPath
 		}
 		if !operation.IsSigningState() {
 			obs.Events = append(obs.Events, string(res.Event))
@@ -274,6 +291,20 @@ func c12Execute(p c12Plan, withRestarts bool, root string) (obs c12Obs) {
 	for i := range w.Nodes {
 		obs.States = append(obs.States, w.StateOf(i, round))
 	}
+	if withRestarts && obs.RespFile != "" {
+		// one more restart after everything: the replay writes the result files again
+		_ = os.Remove(obs.RespFile)
+		if err := restart("after the ceremony"); err != nil {
+			obs.Err = err
+			return
+		}
+		if bz, err := os.ReadFile(obs.RespFile); err == nil {
+			var res types.Operation
+			if json.Unmarshal(bz, &res) == nil && len(res.ResultMsgs) == 1 {
+				obs.RespReplayed = res.ResultMsgs[0].Data
+			}
+		}
+	}
 	kr, err := w.Keyring(p.P, round)
 	if err == nil && kr != nil {
 		obs.Poly = polyBytes(kr.PubPoly)
@@ -315,6 +346,9 @@ func c12Run(t *testing.T, st *vstat.Stats, p c12Plan) *viol {
 	if fmt.Sprint(obs.Messages) != fmt.Sprint(twin.Messages) {
 		return violf("published-data-differs:"+key, "%s: the restarted machine published different commitments / key than its uninterrupted twin", desc)
 	}
+	if obs.RespPublished != nil && obs.RespReplayed != nil && !bytes.Equal(obs.RespPublished, obs.RespReplayed) {
+		return violf("replayed-responses-differ:"+key, "%s (deals operation read twice: %v): the responses the rebuilt machine writes when its log is replayed after the ceremony are not the ones it handed out during the ceremony (its random stream is not where the uninterrupted machine's is): published %s | replayed %s", desc, p.RefeedDeals, clip(string(obs.RespPublished), 160), clip(string(obs.RespReplayed), 160))
+	}
 	if fmt.Sprint(obs.States) != fmt.Sprint(twin.States) {
 		return violf("outcome-differs:"+key, "%s: final node states %v, twin %v", desc, obs.States, twin.States)
 	}
@@ -325,6 +359,12 @@ func c12Run(t *testing.T, st *vstat.Stats, p c12Plan) *viol {
 	}
 	if !polyEq(obs.Poly, twin.Poly) || !bytes.Equal(obs.Share, twin.Share) || len(obs.Share) == 0 {
 		return violf("keyring-differs:"+key, "%s: group polynomial or private share differs from the uninterrupted twin's", desc)
+	}
+	if p.RefeedDeals {
+		st.Class("deals-operation-read-twice")
+	}
+	if obs.RespReplayed != nil {
+		st.Class("responses-rewritten-by-a-final-replay-compared")
 	}
 	for _, m := range modes {
 		st.Class("restart:" + m[2:])
